@@ -262,7 +262,7 @@ func c04Eval(root *LNode, fl Flags, out string, ok bool) []c04Diff {
 }
 
 // number and string alphabets of the T4 trees
-var c04Numbers = []string{"0", "-0", "1.0", "1e3", "1E+3", "1.50e+3", "7469113720208097282", "-9223372036854775808", "18446744073709551616", "1e400", "0.1000000000000000055511151231257827", "-1.5E-10", "123456789012345678901234567890", "0.0", "1E400", "4E0"}
+var c04Numbers = []string{"0", "-0", "1.0", "1e3", "1E+3", "1.50e+3", "7469113720208097282", "-9223372036854775808", "9223372036854775807", "9223372036854775808", "18446744073709551615", "18446744073709551616", "1e400", "0.1000000000000000055511151231257827", "-1.5E-10", "123456789012345678901234567890", "0.0", "1E400", "4E0"}
 var c04Strings = []string{"", "plain", "tab\t nl\n cr\r bs\b ff\f", "quote\" backslash\\ slash/", "ctl\u0001\u001f del\u007f", "é ü 日本    ", "astral \U0001F600 \U00010348", "<script>&amp;</script>", "$dollar", "a@b.co", "255.255.255.255:65535", "REDACTED", "2024-01-01T00:00:00Z", "  spaces  "}
 
 func c04TValues() []tValue {
@@ -342,6 +342,7 @@ func c04Run(c *Ctx) {
 	}
 	c04Sequences(c)
 	twinHistories(c, "C04", twinFlagSets)
+	wordsInOtherRoles(c, "C04")
 	// text outside the zones survives the real line reader at every line length
 	streamLenSweep(c, "C04", []string{"keep-blanks", "keep-mixed", "keep-multibyte"}, Flags{})
 	sweep(c, layers, func(sc *sweepCase) bool {
@@ -456,7 +457,7 @@ func c04Run(c *Ctx) {
 func init() {
 	register(&PropDef{
 		ID: "C04", Level: "exploration",
-		Rule:        "G with the rich envelope (64-bit integers, exponent / decimal / huge literals, nested arrays of arrays of documents, escape-heavy strings and keys incl. control characters) at 0 deviations over all 6 gates x 6 containers under all 2^7 flag sets plus two selective-mode sets, <=1 non-default production under a pairwise-covering set (thorough: <=2); T4 = every vocabulary path x {16 number literals, 14 strings of every escape class, mixed arrays, odd keys} x 5 tree shapes placed in 3 positions outside the zones (non-zone attribute, non-query command member, other component); $limit / $skip with every number literal at pipeline depth 0..3. Oracle: parallel walk of the labelled input tree and the output parsed by the harness' own reader: every KEEP position deep-identical (keys, order, decoded strings, number literal TEXT), namespaces identical without W, attr.remote without I, planSummary without F, every object key outside the zones and (without F) inside them identical. distinct = distinct input lines" + scaleRule + streamLenRule + "; a SECRET number / boolean keeps its literal when its flag is off" + twinRule + rootedRule,
+		Rule:        "G with the rich envelope (64-bit integers, exponent / decimal / huge literals, nested arrays of arrays of documents, escape-heavy strings and keys incl. control characters) at 0 deviations over all 6 gates x 6 containers under all 2^7 flag sets plus two selective-mode sets, <=1 non-default production under a pairwise-covering set (thorough: <=2); T4 = every vocabulary path x {16 number literals, 14 strings of every escape class, mixed arrays, odd keys} x 5 tree shapes placed in 3 positions outside the zones (non-zone attribute, non-query command member, other component); $limit / $skip with every number literal at pipeline depth 0..3. Oracle: parallel walk of the labelled input tree and the output parsed by the harness' own reader: every KEEP position deep-identical (keys, order, decoded strings, number literal TEXT), namespaces identical without W, attr.remote without I, planSummary without F, every object key outside the zones and (without F) inside them identical. distinct = distinct input lines" + scaleRule + streamLenRule + "; a SECRET number / boolean keeps its literal when its flag is off" + twinRule + rootedRule + wordsRule,
 		Assumptions: []string{"the label table of G (GRAMMAR.md / DESIGN.md 3.0) decides which command members are KEEP", "shape changes inside zones are C03's concern and stop the parallel walk at that node"},
 		Run:         c04Run,
 	})
